@@ -5,6 +5,7 @@ import (
 	"fmt"
 	"math/rand/v2"
 	"reflect"
+	"strings"
 	"unsafe"
 
 	"github.com/philpearl/avro"
@@ -90,6 +91,131 @@ func (c20enumCodec) Write(w *avro.WriteBuf, p unsafe.Pointer) {
 		}
 	}
 	w.Varint(0)
+}
+
+// an unnamed type (a slice type has no name and no package path) with a registration of its own
+type c20Label string
+
+type c20tagsHolder struct {
+	Tags []c20Label `json:"tags"`
+	N    int64      `json:"n"`
+	More []c20Label `json:"more"`
+}
+
+type c20tagsCodec struct{}
+
+func (c20tagsCodec) Read(r *avro.ReadBuf, p unsafe.Pointer) error {
+	s, err := readStr(r)
+	if err != nil {
+		return err
+	}
+	var out []c20Label
+	if s != "" {
+		for _, part := range strings.Split(s, ",") {
+			out = append(out, c20Label(part))
+		}
+	}
+	*(*[]c20Label)(p) = out
+	return nil
+}
+func (c20tagsCodec) Skip(r *avro.ReadBuf) error { _, err := readStr(r); return err }
+func (c20tagsCodec) New(r *avro.ReadBuf) unsafe.Pointer {
+	return r.Alloc(reflect.TypeOf([]c20Label(nil)))
+}
+func (c20tagsCodec) Omit(p unsafe.Pointer) bool { return false }
+func (c20tagsCodec) Write(w *avro.WriteBuf, p unsafe.Pointer) {
+	var parts []string
+	for _, l := range *(*[]c20Label)(p) {
+		parts = append(parts, string(l))
+	}
+	writeStr(w, strings.Join(parts, ","))
+}
+
+var c20tagsBuilds int
+
+func c20unnamedRegistered(c *core.Ctx, r *rand.Rand) {
+	rt := reflect.TypeOf([]c20Label(nil))
+	avro.Register(rt, func(s avro.Schema, typ reflect.Type, omit bool) (avro.Codec, error) {
+		if s.Type != "string" {
+			return nil, fmt.Errorf("[]c20Label expects its string schema, got %s", s.Type)
+		}
+		c20tagsBuilds++
+		return c20tagsCodec{}, nil
+	})
+	avro.RegisterSchema(rt, avro.Schema{Type: "string"})
+	b0 := c20tagsBuilds
+	gs, err := avro.SchemaForType(c20tagsHolder{})
+	if err != nil || gs.Object == nil || len(gs.Object.Fields) != 3 || gs.Object.Fields[0].Type.Type != "string" || gs.Object.Fields[2].Type.Type != "string" {
+		c.Violate("unnamed-registered", fmt.Sprintf("a schema registered for the unnamed type []c20Label is not what schema generation emits: err=%v schema=%+v", err, gs), nil)
+		return
+	}
+	var hs []c20tagsHolder
+	for k := 0; k < 1+r.IntN(4); k++ {
+		h := c20tagsHolder{N: int64(k)}
+		for j := 0; j < r.IntN(4); j++ {
+			h.Tags = append(h.Tags, c20Label(fmt.Sprintf("t%d", r.IntN(50))))
+		}
+		h.More = []c20Label{"x", c20Label(fmt.Sprintf("y%d", k))}
+		hs = append(hs, h)
+	}
+	var buf bytes.Buffer
+	enc, err := avro.NewEncoderFor[c20tagsHolder](&buf, compressions[r.IntN(3)], 0)
+	if err != nil {
+		c.Violate("unnamed-registered", "NewEncoderFor with a field of a registered unnamed type: "+err.Error(), nil)
+		return
+	}
+	for k := range hs {
+		if err := enc.Encode(&hs[k]); err != nil {
+			c.Violate("unnamed-registered", "Encode: "+err.Error(), nil)
+			return
+		}
+	}
+	if err := enc.Flush(); err != nil {
+		c.Violate("unnamed-registered", "Flush: "+err.Error(), nil)
+		return
+	}
+	c.Eval(1)
+	cont, err := refavro.ReadContainer(buf.Bytes())
+	if err != nil {
+		c.Violate("unnamed-registered", "not a valid container: "+err.Error(), nil)
+		return
+	}
+	join := func(ls []c20Label) string {
+		var parts []string
+		for _, l := range ls {
+			parts = append(parts, string(l))
+		}
+		return strings.Join(parts, ",")
+	}
+	for k, d := range cont.AllRecords() {
+		rec, ok := d.(*refavro.Record)
+		if !ok || len(rec.Fields) != 3 || rec.Fields[0] != join(hs[k].Tags) || rec.Fields[2] != join(hs[k].More) {
+			c.Violate("unnamed-registered", fmt.Sprintf("record %d on the wire is %s, the registered codec writes %q and %q", k, refavro.Render(d), join(hs[k].Tags), join(hs[k].More)), nil)
+			return
+		}
+	}
+	var back []c20tagsHolder
+	rerr := avro.ReadFile(bytes.NewReader(buf.Bytes()), c20tagsHolder{}, func(val unsafe.Pointer, rb *avro.ResourceBank) error {
+		h := *(*c20tagsHolder)(val)
+		back = append(back, c20tagsHolder{Tags: append([]c20Label(nil), h.Tags...), N: h.N, More: append([]c20Label(nil), h.More...)})
+		rb.Close()
+		return nil
+	})
+	if rerr != nil || len(back) != len(hs) {
+		c.Violate("unnamed-registered", fmt.Sprintf("reading back: err=%v, %d of %d", rerr, len(back), len(hs)), nil)
+		return
+	}
+	for k := range hs {
+		if join(hs[k].Tags) != join(back[k].Tags) || join(hs[k].More) != join(back[k].More) || hs[k].N != back[k].N {
+			c.Violate("unnamed-registered", fmt.Sprintf("record %d read back as %+v, written %+v", k, back[k], hs[k]), nil)
+			return
+		}
+	}
+	if c20tagsBuilds == b0 {
+		c.Violate("unnamed-registered", "the builder registered for the unnamed type was never consulted", nil)
+		return
+	}
+	c.Count("unnamed-registered-ok", 1)
 }
 
 var c20rootBuilds, c20enumBuilds int
@@ -281,4 +407,5 @@ func c20rootAndEnum(c *core.Ctx, r *rand.Rand) {
 		return
 	}
 	c.Count("enum-registered-ok", 1)
+	c20unnamedRegistered(c, r)
 }
